@@ -78,8 +78,13 @@ class _Instance:
 
     def __setattr__(self, key: str, val: Any) -> None:
         """Connect-by-setattr"""
-        if not getattr(self, "_initialized", False) or key.startswith("_"):
-            # Bootstrapping phase: do regular setattrs to get started
+        if not getattr(self, "_initialized", False) or (
+            key.startswith("_")
+            and (isinstance(val, type) or not is_connectable(val))
+            and key not in self.conns
+        ):
+            # Bootstrapping phase, and internal (non-HDL) state: do regular setattrs.
+            # Connectables go to ports, also those whose names start with an underscore.
             return object.__setattr__(self, key, val)
         if key in self.__getattribute__("_specialcases"):  # Special case(s)
             return object.__setattr__(self, key, val)
